@@ -142,3 +142,28 @@ def _f08a(pid, cfg, tr, v):
                 changed.add(e[2])
     members = set(c[0] for q in p[v[1]][2] for c in q if c[1])
     return bool(changed & members)
+
+
+@trigger('F-09a')
+def _f09a(pid, cfg, tr, v):
+    """the failing routing / class-change decision consumed a uniform draw of exactly 0"""
+    if v[0] != 'R' or v[2] != 150:
+        return False
+    from props.c09 import events
+    ev = events(tr)[0]
+    k = v[1]
+    return k < len(ev) and ev[k][0] == 1 and ev[k][3] == 0
+
+
+@trigger('F-09b')
+def _f09b(pid, cfg, tr, v):
+    """JSQ/LB counters differ from the true lines in a run with a 'reroute' pre-emption option (or after F-02b)"""
+    if v[0] != 'R' or v[2] != 155:
+        return False
+    if any(p == 'reroute' for p in (cfg.get('preempt') or [])):
+        return True
+    if any(isinstance(s, dict) and s.get('pre') == 'reroute' for s in cfg['servers']):
+        return True
+    from props.c09 import PROP as _P
+    fk = _P.frame_index(tr, v[1])
+    return _f02b(pid, cfg, tr, ('R', fk, 0, [])) or _f02a(pid, cfg, tr, ('R', fk, 0, []))
